@@ -87,7 +87,9 @@ fn cart_checks(rep: &Report, name: &str, e: &Ellipsoid, ell: &Ell, lats: &[f64],
     };
     let mut w_op = 0f64;
     let mut w_cf = 0f64;
-    for &lat in lats {
+    // (plus a ladder next to the polar axis: 0.1 mm to 0.1 m from it, where the inverses have their shortcuts)
+    let near_axis: Vec<f64> = [1e-9, 1e-8, 2e-8, 3.5e-8, 1e-7, 1e-6].iter().flat_map(|c| [90. - c, c - 90.]).collect();
+    for &lat in lats.iter().chain(near_axis.iter()) {
         for &lon in lons {
             for &h in &[-10_000., 0., 1., 8848., 100_000., 1e6, 1e7] {
                 let g = Coor4D([lon.to_radians(), lat.to_radians(), h, 0.]);
